@@ -54,7 +54,7 @@ func exprKey(v ssa.Value, depth int) string {
 	case *ssa.Extract:
 		return exprKey(x.Tuple, depth+1) + "#" + fmt.Sprint(x.Index)
 	case *ssa.Call:
-		if sc := x.Call.StaticCallee(); sc != nil && sc.Signature.Recv() != nil && isAccessor(sc.Object(), x.Call.Args[1:]) {
+		if sc := x.Call.StaticCallee(); sc != nil && sc.Signature.Recv() != nil && (isAccessor(sc.Object(), x.Call.Args[1:]) || (len(x.Call.Args) == 1 && isRepoFn(sc) && sc.Signature.Results().Len() == 1)) {
 			parts := []string{}
 			for _, a := range x.Call.Args {
 				parts = append(parts, exprKey(a, depth+1))
